@@ -4,6 +4,7 @@ import (
 	"bytes"
 	"encoding/json"
 	"fmt"
+	"math/big"
 	"runtime"
 	"sync"
 	"time"
@@ -12,6 +13,7 @@ import (
 	"github.com/btcsuite/btcd/wire"
 	cmtproto "github.com/cometbft/cometbft/proto/tendermint/types"
 	sdk "github.com/cosmos/cosmos-sdk/types"
+	"github.com/ethereum/go-ethereum/core/types/goattypes"
 	bitcointypes "github.com/goatnetwork/goat/x/bitcoin/types"
 	relayertypes "github.com/goatnetwork/goat/x/relayer/types"
 	"verifharness/mc"
@@ -19,6 +21,8 @@ import (
 )
 
 // C03 – deposits: SPV-proven, script-bound, matured, credited at most once, value-exact.
+
+var c03E10 = big.NewInt(1e10)
 
 const (
 	c03Tip      = 300
@@ -430,6 +434,46 @@ func (w *depWorld) eval(c *depCase) (accepted bool, violation string, class stri
 		if !hasDep {
 			return true, "accepted deposit not recorded as deposited", "not-recorded"
 		}
+	}
+	// value-exactness up to the hand-over: the deposit transactions the execution layer will
+	// receive carry (value - tax) and tax in wei (1 satoshi = 1e10 wei), in arbitrary precision
+	hctx, _ := tctx.CacheContext()
+	want := map[string][2]*big.Int{}
+	for _, rec := range newRec {
+		want[fmt.Sprintf("%x:%d", rec.Txid, rec.Txout)] = [2]*big.Int{new(big.Int).Mul(new(big.Int).SetUint64(rec.Amount), c03E10), new(big.Int).Mul(new(big.Int).SetUint64(rec.Tax), c03E10)}
+	}
+	for round := 0; round < 4 && len(want) > 0; round++ {
+		txs, err := k.DequeueBitcoinModuleTx(hctx)
+		if err != nil {
+			return true, "hand-over of the accepted deposits fails: " + err.Error(), "hand-over-fails"
+		}
+		for _, st := range sim.DecodeSysTxs(txs) {
+			dt, ok := st.Inner.(*goattypes.DepositTx)
+			if !ok {
+				continue
+			}
+			// goat-geth's reversed-txid convention is the bridge's; match on either byte order
+			key := fmt.Sprintf("%x:%d", dt.Txid.Bytes(), dt.TxOut)
+			w, ok := want[key]
+			if !ok {
+				rev := append([]byte{}, dt.Txid.Bytes()...)
+				for i, j := 0, len(rev)-1; i < j; i, j = i+1, j-1 {
+					rev[i], rev[j] = rev[j], rev[i]
+				}
+				key = fmt.Sprintf("%x:%d", rev, dt.TxOut)
+				w, ok = want[key]
+			}
+			if !ok {
+				continue
+			}
+			if dt.Amount.Cmp(w[0]) != 0 || dt.Tax.Cmp(w[1]) != 0 {
+				return true, fmt.Sprintf("deposit handed over with amount %s tax %s wei, credited %s + %s", dt.Amount, dt.Tax, w[0], w[1]), "value-inexact-at-hand-over"
+			}
+			delete(want, key)
+		}
+	}
+	if len(want) > 0 {
+		return true, fmt.Sprintf("%d accepted deposits are not handed over within 4 blocks", len(want)), "not-handed-over"
 	}
 	return true, "", ""
 }
